@@ -4206,6 +4206,7 @@ func (vm *vm) createGlobalVarBindings(names []unistring.String, d bool) {
 	if bo, ok := o.(*templatedObject); ok {
 		for _, name := range names {
 			if !bo.hasOwnPropertyStr(name) && bo.extensible {
+				bo.materialisePropNames()
 				bo._putProp(name, _undefined, true, true, d)
 			}
 		}
@@ -4242,6 +4243,7 @@ func (vm *vm) createGlobalFuncBindings(names []unistring.String, d bool) {
 		prop := o.getOwnPropStr(name)
 		desc.Value = vm.stack[b+i]
 		if shortcutObj != nil && prop == nil && shortcutObj.extensible {
+			shortcutObj.materialisePropNames()
 			shortcutObj._putProp(name, desc.Value, true, true, d)
 		} else {
 			if prop, ok := prop.(*valueProperty); ok && !prop.configurable {
